@@ -365,6 +365,23 @@ def rel_C12(suite):
 
 def rel_C13(suite):
     r = group_relation(suite, 'incl', 'include vs inlined body disagree', True)
+    # the grammar written with `>Rule` must be accepted (and compile) exactly when its inlined twin is
+    groups = collections.defaultdict(dict)
+    for c in suite['cases']:
+        if 'incl' in c['tags'] and c['group']:
+            groups[c['group']][c['variant']] = c
+    for gname, vs in sorted(groups.items()):
+        if 0 in vs and 1 in vs:
+            st = {}
+            for v, c in vs.items():
+                g = suite['gen'].get(c['id'], ['?', ''])
+                st[v] = 'OK' if g[0] == 'OK' and c['id'] not in suite['compile_fail'] else (g[0] if g[0] != 'OK' else 'RUSTC') + ': ' + (g[1] if g[0] != 'OK' else suite['compile_fail'].get(c['id'], ''))[:160]
+            r['evaluations'] += 1
+            if (st[0] == 'OK') != (st[1] == 'OK'):
+                c = vs[0]
+                r['prop'].append(dict(kind='pegdiff', what='grammar with >Rule and its textually inlined twin are not accepted alike: with includes %s / inlined %s' % (st[0], st[1]),
+                                      case=c['id'], tags=c['tags'], grammar=c['text'], sexp=c['sexp'], uctx=c['uctx'], rule='', input='', input_hex='',
+                                      model=None, impl=None, inlined_grammar=vs[1]['text']))
     return r
 
 
@@ -502,6 +519,8 @@ def rel_C20(suite):
             res['distribution']['sequential re-executions (shuffled, then reversed)'] += seq
             res['distribution']['re-executions from 16 threads'] += thr
             res['nontrivial'].add(('batch', n, seq, thr))
+        elif p[0] == '#HP':
+            res['distribution']['parses in which a user function panicked before the re-executions (probe)'] += int(p[1])
         elif p[0] == '#HD':
             c = suite['case_by_id'].get(p[1])
             idx = int(p[2])
